@@ -71,7 +71,7 @@ func verif_Verifier_VerifyLogin(v Verifier, m *msg.Login) {
 //
 //verif:contract (~/pkg/auth.Verifier).VerifyPing
 //verif:impls *~/pkg/auth.TokenAuthSetterVerifier *~/pkg/auth.OidcAuthConsumer *~/pkg/auth.alwaysPass
-//verif:props C04
+//verif:props C04 C14
 func verif_Verifier_VerifyPing(v Verifier, m *msg.Ping) {
 	ts, key := m.Timestamp, m.PrivilegeKey
 	err := v.VerifyPing(m)
